@@ -11,6 +11,9 @@ open Nanite.C11W
 #print axioms c11_noise_free_with_weights
 #print axioms c11_initial_guess_measured
 #print axioms c11_square_multiplicative
+#print axioms c11_limits_equivalent
+#print axioms c11_one_sided_limit_must_scale
+#print axioms c11_limits_restored
 #print axioms c11w_in_place_accumulates
 -- the shipped power-law model functions (regenerated from source) have the scaling C11 relies on
 open Nanite.C02 in
